@@ -66,22 +66,28 @@ fn lower_ascii(s: &str) -> String { let mut o = String::with_capacity(s.len()); 
 
 HARNESS = r'''
 fn yaml_of_kind(k: usize) -> Yaml { match k { 0 => Yaml::String("Medium".to_string()), 1 => Yaml::Boolean(true), _ => Yaml::Real("180.0".to_string()) } }
-fn manager(present: bool, kind: usize, in_api: bool) -> PreferenceManager {
+fn manager(present: bool, kind: usize, place: usize, kind2: usize) -> PreferenceManager {
     let mut pm = PreferenceManager { error: String::new(), api_prefs: Preferences { prefs: PreferenceHashMap::new() }, user_prefs: Preferences { prefs: PreferenceHashMap::new() }, files_reset: 0 };
     pm.user_prefs.prefs.insert("DecimalSeparator".to_string(), Yaml::String("Auto".to_string()));
     pm.user_prefs.prefs.insert("Language".to_string(), Yaml::String("en".to_string()));
-    if present { if in_api { pm.api_prefs.prefs.insert("Verbosity".to_string(), yaml_of_kind(kind)); } else { pm.user_prefs.prefs.insert("Verbosity".to_string(), yaml_of_kind(kind)); } }
+    // place: 0 = API map, 1 = user map, 2 = BOTH maps (an API preference that was also written to the user map, e.g. by an earlier set to its current value)
+    if present && place != 1 { pm.api_prefs.prefs.insert("Verbosity".to_string(), yaml_of_kind(kind)); }
+    if present && place != 0 { pm.user_prefs.prefs.insert("Verbosity".to_string(), yaml_of_kind(if place == 2 { kind2 } else { kind })); }
     pm
 }
-fn stored<'a>(pm: &'a PreferenceManager) -> Option<&'a Yaml> { match pm.api_prefs.prefs.get("Verbosity") { Some(v) => Some(v), None => pm.user_prefs.prefs.get("Verbosity") } }
+/// what get_preference reads: the look-up statements of pref_to_string, verbatim
+impl PreferenceManager { fn looked_up(&self, name: &str) -> Option<&Yaml> { LOOKUP_STMTS value } }
+fn stored<'a>(pm: &'a PreferenceManager) -> Option<&'a Yaml> { pm.looked_up("Verbosity") }
 fn kind_of(y: Option<&Yaml>) -> u8 { match y { None => 9, Some(Yaml::String(s)) => if s.as_bytes() == b"Terse" { 10 } else { 0 }, Some(Yaml::Boolean(_)) => 1, Some(_) => 2 } }
 
 // K-C12-a.1: set_string_pref from ANY stored state: the preference may be absent or hold any scalar kind, in either map
 HARNESS(set_string_pref_total, 9) {
     let present = sym::bool();
     let kind = sym::below(3);
-    let in_api = sym::bool();
-    let mut pm = manager(present, kind, in_api);
+    let place = sym::below(3);
+    let kind2 = sym::below(3);
+    let mut pm = manager(present, kind, place, kind2);
+    cover!(present && place == 2, "preference present in both maps reachable");
     assert!(kid("Verbosity") != kid("DecimalSeparator") && kid("Verbosity") != kid("Language") && kid("Language") != kid("DecimalSeparator"), "key model not injective");
     let before = kind_of(stored(&pm));
     let r = pm.set_string_pref("Verbosity", "Terse");          // must not panic, whatever kind is stored
@@ -209,12 +215,15 @@ def _build(run, crate_name, only_kernel=False):
     sp = itf.find("fn set_preference")
     lower = sp.find_stmt("let lower_case_value =")
     dispatch = sp.find_expr('if lower_case_value == "true" || lower_case_value == "false"')
-    run.uses(*meths, *consts, lower, dispatch)
+    pts = imp.find("fn pref_to_string")
+    look1 = pts.find_stmt("let mut value =")
+    look2 = prefs.find_expr("if value . is_none ( )", within=pts)
+    run.uses(*meths, *consts, lower, dispatch, look1, look2)
     dl = "static DEFAULT_LANG: Yaml = Yaml::String(String::new());\n"
     body = prelude.STR_STUBS + SHIM + dl + "\n".join(c.text for c in consts) + "\nimpl PreferenceManager {\n" + "\n".join(m.text for m in meths) + "\n}\n" + \
-        HARNESS.replace("LOWER_STMT", lower.text).replace("DISPATCH_EXPR", dispatch.text)
+        HARNESS.replace("LOOKUP_STMTS", look1.text + "\n" + look2.text + "\n").replace("LOWER_STMT", lower.text).replace("DISPATCH_EXPR", dispatch.text)
     crate = kani_run.Crate(crate_name, body)
-    run.bound("K-C12-a", "set_string_pref: the preference absent or holding ANY scalar kind (string / boolean / number) in either map; "
+    run.bound("K-C12-a", "set_string_pref: the preference absent or holding ANY scalar kind (string / boolean / number) in the API map, the user map or both (independent kinds); read back through the look-up statements of pref_to_string; "
               "dispatch: name in {Verbosity (string), Blind (boolean), Rate (number), NoSuch} x value in {true, False, Terse, 1.5}")
     run.assume("HashMap<String,Yaml> replaced by a 4-slot association list keyed by (length, first byte) of the name, injective on the six names used; yaml_rust::Yaml by an enum with the same four scalar kinds and as_str/as_bool",
                "reset_files_from_preference_change / set_separators stubbed (nondeterministic success / Ok); to_float replaced by a table for the sample values; str::to_lowercase stubbed by ASCII lowering (values are ASCII)",
@@ -244,7 +253,7 @@ def _build(run, crate_name, only_kernel=False):
         return True, "no API recipe for role " + r
     lemmas = [
         dict(id="K-C12-a.set_string_pref", harness="set_string_pref_total", role=role, api=api,
-             covers=["string preference set reachable", "file-change failure reachable", "string preference holding a boolean reachable"],
+             covers=["string preference set reachable", "file-change failure reachable", "string preference holding a boolean reachable", "preference present in both maps reachable"],
              claim="set_string_pref from any stored kind: no panic; Ok => known name and the new value is stored; Err => nothing changed"),
         dict(id="K-C12-a.dispatch", harness="dispatch_routes_by_kind", role=role, api=api,
              covers=["False reaches the boolean setter", "number reaches the float setter", "rejection reachable"],
